@@ -301,12 +301,17 @@ def equality_pool(r):
         "fractions.Fraction": pyfractions.Fraction(1, 2), "Decimal": decimal.Decimal("0.5"), "rational look-alike": _Rational(1, 2), "np.int64": np.int64(1), "np.float64": np.float64(0.5),
         "huge int": 10**400, "huge negative int": -(10**400), "inf": float("inf"), "nan": float("nan"), "2**1024": 2**1024,
         "complex": 1 + 0j, "bytes": b"x", "frozenset": frozenset([1]), "range": range(2), "type": Scalar,
+        # pairs that look like (numerator, denominator) or (value, unit) but are plain tuples / lists; and the two zeros
+        "pair (1.0, 'm')": (1.0, "m"), "pair (1, 0)": (1, 0), "list pair [1, 0]": [1, 0], "pair (inf, 2)": (float("inf"), 2), "pair (None, None)": (None, None), "pair ('a', 'b')": ("a", "b"),
+        "pair (nan, 1)": (float("nan"), 1), "pair (1, 2.5)": (1, 2.5),
+        "Scalar(0.0)": Scalar(0.0, u1), "Scalar(-0.0)": Scalar(-0.0, u1), "Scalar(-5 * 0)": Scalar(-5.0, u1) * 0, "Scalar(int 0)": Scalar(0, u1),
+        "Scalar(empty, -0.0)": Scalar.CreateEmptyScalar(-0.0), "Scalar(empty, 0.0)": Scalar.CreateEmptyScalar(0.0), "Scalar(derived, -0.0)": (m * s) * -0.0, "Scalar(derived, 0.0)": (m * s) * 0.0,
         "None": None, "str": "x", "int": 1, "float": 0.5, "tuple": (1, 2), "list": [1.0, 2.0], "dict": {"a": 1}, "object": object(), "bool": True, "int0": 0, "float1.5": 1.5,
     }  # fmt: skip
     return objs
 
 
-FOREIGN = {"None", "str", "int", "float", "tuple", "list", "dict", "object", "bool", "int0", "float1.5", "fractions.Fraction", "Decimal", "rational look-alike", "np.int64", "np.float64", "complex", "bytes", "frozenset", "range", "type", "huge int", "huge negative int", "inf", "nan", "2**1024"}
+FOREIGN = {"pair (1.0, 'm')", "pair (1, 0)", "list pair [1, 0]", "pair (inf, 2)", "pair (None, None)", "pair ('a', 'b')", "pair (nan, 1)", "pair (1, 2.5)", "None", "str", "int", "float", "tuple", "list", "dict", "object", "bool", "int0", "float1.5", "fractions.Fraction", "Decimal", "rational look-alike", "np.int64", "np.float64", "complex", "bytes", "frozenset", "range", "type", "huge int", "huge negative int", "inf", "nan", "2**1024"}
 
 
 class _Rational:
